@@ -427,6 +427,7 @@ def run(ctx, res):
 def check_cli(ctx, res, lib):
     """A3: the Tab arm and the built-in `help` candidate."""
     ses, words, I = session.process_byte_words(lib)
+    words = session.shaped(words)      # flushes are C15's; an empty text skipped = an empty write
     for word, status in words.get('Tab', ()):
         muts = [l for l in word if l.startswith('E.') and l.split(':')[0].split('(')[0] not in ('E.cursor', 'E.len', 'E.text', 'E.text_range')]
         good = muts == ['E.autocompletion']
